@@ -90,3 +90,17 @@ contract("lex:Lexer.run", mutates=M, requires=["lex_inv(self)", "lex_stacks_ok(s
     fn_vars={"state": "lex:lex_root"}, props=["C19", "C13"],
     note="the driver loop: `state` always holds one of the state functions, which all carry the contract of lex_root "
          "(pyvc/lexframe.py checks both facts on the AST / the contract registry)")
+
+contract("lex:lex",
+    requires=["is_str(query)"],
+    ensures=["is_tuple(result) and len(result) == 2", "lex_inv(seq(result)[0])", "lex_stacks_ok(seq(result)[0])", "seq(result)[0].query == query",
+             "seq(result)[1] == seq(result)[0].tokens", "seq(result)[0].pos == 0 and len(seq(result)[0].tokens) == 0"],
+    raises=[], props=["C19", "C13"])
+
+contract("lex:tokenize",
+    requires=["is_str(query)"],
+    ensures=["is_arr(result)", "toks_ok(seq(result), query)"],
+    raises=["JSONPathSyntaxError", "JSONPathLexerError"], raises_ensures=["tok_ok(exc.token, query)"],
+    aliases={"tokens": "lexer.tokens"}, unfold=["py_eq"], props=["C19", "C13"],
+    note="`tokens` is the very list object lexer.tokens (lex() returns `lexer, lexer.tokens`; pyvc/lexframe.py checks that and that tokenize "
+         "never rebinds it): reads of `tokens` go through lexer.tokens")
